@@ -99,9 +99,12 @@ class PolygonPixelRegion(PixelRegion):
         vx = np.asarray(self.vertices.x, dtype=float)
         vy = np.asarray(self.vertices.y, dtype=float)
 
-        shape = x.shape
+        shape = np.shape(pixcoord.x)
         mask = points_in_polygon(x.flatten(), y.flatten(), vx, vy).astype(bool)
         in_poly = mask.reshape(shape)
+        if pixcoord.isscalar:
+            # a scalar position gives a scalar answer, as for other regions
+            in_poly = in_poly[()]
         if self.meta.get('include', True):
             return in_poly
         else:
